@@ -12,6 +12,7 @@ import (
 func init() { register("C19", checkC19) }
 
 func checkC19(c *Ctx, r *Report, tier string) {
+	round5(c, r, "C19")
 	r.Rule("C19.R1", "heap.Interface contract of both queue types: Less is a strict comparison of the priorities of elements i and j whose direction matches the constructor (NewMin… ⇒ <, NewMax… ⇒ >); Swap exchanges exactly i and j; Push appends its argument; Pop returns the last element and shrinks by one; Len is len; the wrapper's Push/Pop go through container/heap on the wrapped queue and Peek reads index 0", 13)
 	r.Rule("C19.R3", "the ordering direction of a queue is fixed by its constructor: the wrapped heap is stored only into freshly allocated queues", 1)
 	queueKindFixedAtConstruction(c, r, "C19.R3")
@@ -123,7 +124,7 @@ func checkC19(c *Ctx, r *Report, tier string) {
 					if id.Name != mn || fieldOfValue(cc.Args[0]) == nil || path(cc.Args[0]) != m.Params[0].Name()+".queue" {
 						okAll = false
 					}
-					if mn == "Push" && strip(cc.Args[1]) != ssa.Value(m.Params[1]) {
+					if mn == "Push" && (len(cc.Args) < 2 || strip(cc.Args[1]) != ssa.Value(m.Params[1])) {
 						okAll = false
 					}
 				}
@@ -224,6 +225,18 @@ func freshSliceSeen(v ssa.Value, seen map[ssa.Value]bool) (bool, string) {
 			}
 			return false, "append onto " + b.String()
 		}
+		if g := y.Call.StaticCallee(); g != nil && modLocal(g) && len(g.Blocks) > 0 && g.Signature.Results().Len() == 1 && len(seen) < 12 {
+			// a helper that returns a slice it allocated itself (cloneItems)
+			all := true
+			for _, rt := range returnsOf(g) {
+				if ok, _ := freshSliceSeen(rt.Results[0], seen); !ok {
+					all = false
+				}
+			}
+			if all {
+				return true, "result of " + fnName(g) + ", which returns a slice it allocated"
+			}
+		}
 		return false, "result of " + id.String()
 	case *ssa.Slice:
 		if al, ok := y.X.(*ssa.Alloc); ok && (al.Comment == "makeslice" || al.Comment == "slicelit") {
@@ -318,6 +331,51 @@ func pushAppends(f *ssa.Function) (bool, string) {
 		return false, "Push not found"
 	}
 	recv, val := ssa.Value(f.Params[0]), ssa.Value(f.Params[1])
+	return pushAppendsOn(f, recv, val, 0)
+}
+
+// delegate: f does nothing to *recv itself but hands recv (converted) to a module helper; returns the helper, the
+// helper's parameter standing for recv, and the call.
+func delegate(f *ssa.Function, recv ssa.Value) (*ssa.Function, []ssa.Value, *ssa.Call) {
+	if len(storesTo(f, recv)) != 0 {
+		return nil, nil, nil
+	}
+	var g *ssa.Function
+	var call *ssa.Call
+	eachInstr(f, func(i ssa.Instruction) {
+		cl, ok := i.(*ssa.Call)
+		if !ok || cl.Call.StaticCallee() == nil || !modLocal(cl.Call.StaticCallee()) || len(cl.Call.StaticCallee().Blocks) == 0 {
+			return
+		}
+		for _, a := range cl.Call.Args {
+			if strip(a) == recv {
+				g, call = cl.Call.StaticCallee(), cl
+			}
+		}
+	})
+	if g == nil {
+		return nil, nil, nil
+	}
+	return g, call.Call.Args, call
+}
+
+func pushAppendsOn(f *ssa.Function, recv, val ssa.Value, depth int) (bool, string) {
+	if g, args, _ := delegate(f, recv); g != nil && depth < 2 {
+		var gr, gv ssa.Value
+		for k, a := range args {
+			if k < len(g.Params) {
+				if strip(a) == recv {
+					gr = g.Params[k]
+				}
+				if strip(a) == val {
+					gv = g.Params[k]
+				}
+			}
+		}
+		if gr != nil && gv != nil {
+			return pushAppendsOn(g, gr, gv, depth+1)
+		}
+	}
 	st := storesTo(f, recv)
 	if len(st) != 1 {
 		return false, "Push does not store the receiver exactly once"
@@ -340,7 +398,27 @@ func popRemovesLast(f *ssa.Function) (bool, string) {
 	if f == nil || len(f.Params) != 1 {
 		return false, "Pop not found"
 	}
-	recv := ssa.Value(f.Params[0])
+	return popRemovesLastOn(f, ssa.Value(f.Params[0]), 0)
+}
+
+func popRemovesLastOn(f *ssa.Function, recv ssa.Value, depth int) (bool, string) {
+	if g, args, call := delegate(f, recv); g != nil && depth < 2 {
+		var gr ssa.Value
+		for k, a := range args {
+			if k < len(g.Params) && strip(a) == recv {
+				gr = g.Params[k]
+			}
+		}
+		returned := true
+		for _, rt := range returnsOf(f) {
+			if len(rt.Results) != 1 || strip(rt.Results[0]) != ssa.Value(call) {
+				returned = false
+			}
+		}
+		if gr != nil && returned {
+			return popRemovesLastOn(g, gr, depth+1)
+		}
+	}
 	isLenMinus1 := func(v ssa.Value, of ssa.Value) bool {
 		b, ok := v.(*ssa.BinOp)
 		if !ok || b.Op != token.SUB {
